@@ -12,13 +12,22 @@
           29 = C06_pca_assemble: waveform-route rows not placed at the requested positions / non-stored
                spikes not zero
           30 = C06_index_of: a member of the lookup list is not replaced by its position
+          31 = C06_link_waveform_route: a feature of a requested stored spike on a channel that is not stored for
+               that spike is not zero
           3  = input outside the stated regime (harness bug)
    Stage 3: InHist (one model object, both stores, several calls), InBig (rule-generated large stores and
    requests, judged at probed positions through the proved closed form C06_get_dense_closed), InIndexOf,
    InPcs2/InCF2/InPca2 (two spikes, any integer waveforms, tolerance), and the number of claimed
-   components min(3, k - 1) for k spikes in InPcs/InComputeFeatures/InPca. *)
+   components min(3, k - 1) for k spikes in InPcs/InComputeFeatures/InPca.
+   Stage 4: InPcaS -- the waveform route on a SPARSE waveform store (per-spike channel rows with -1 padding,
+   channels missing for some spikes), judged through the linked model of LinkC03.v: the waveforms that reach
+   compute_features are C03's look-up (code 1), the observed features are the linked model's with the oracle
+   instantiated by the components the eigen-solver was seen to return (code 1, exact regime), unstored channels
+   give zero features for every oracle (31), placement (29), and the components / features are judged (27 / 28)
+   per channel for as many leading components as are determined (pca_leading_max). *)
 From Coq Require Import ZArith List Bool Arith.
 From PV Require Export Base.Tok Base.NpList C06.Model C06.Spec.
+From PV Require Import C06.LinkC03.
 Import ListNotations.
 Open Scope Z_scope.
 
@@ -67,7 +76,13 @@ Inductive input :=
         (ind : option (list (list Z))) (n_templates : nat) (trule : list Z) (ids : list seg) (chans : list Z)
         (probes : list Z)
 (* _index_of(arr, lookup) *)
-| InIndexOf (lookup : list seg) (arr : list Z).
+| InIndexOf (lookup : list seg) (arr : list Z)
+(* get_features without a feature file on a SPARSE waveform store: stored waveforms (n_stored, n_samples, ncs) on the
+   per-spike channel rows chrows (n_stored, ncs; -1 = padding); exact = the effective (masked) waveforms of the
+   requested stored spikes have an exactly diagonal covariance on every requested channel; judged = the number of
+   (channel, component) pairs the generator expects to be determined (cross-check of the regime) *)
+| InPcaS (exact : bool) (judged : nat) (nsamp : nat) (w : list (list (list Z))) (chrows : list (list Z))
+         (stored ids chans : list Z).
 
 Inductive obs1 :=
 | OArr (shape : list Z) (rows : list (list cell))
@@ -81,6 +96,8 @@ Inductive observed :=
 | ObsCF (pcs feat : list (list (list tok)))
 | ObsMany (l : list obs1)
 | ObsZs (o : option (list Z))
+(* waveform route: the waveforms _compute_pcs received, the components it returned, the features *)
+| ObsLink (wav pcs feat : list (list (list tok)))
 | ObsCrash.
 
 Record case := { cid : Z; cin : input; cobs : observed }.
@@ -254,6 +271,39 @@ Definition pcs2_b (nsamp nc : nat) (w : list (list (list Z))) (pcs : list (list 
             (combine (seq 0 nsamp) d)) [1; -1]) (seq 0 nc)
   | _ => false
   end.
+
+(* ---- stage 4: the sparse waveform store, judged through the linked model ---- *)
+(* features / components judged per channel on the determined leading indices lead[k] (variable length) *)
+Definition pca_feat_l_b (lead : list (list nat)) (nc : nat) (w feat : list (list (list Z))) : bool :=
+  (length feat =? length w)%nat &&
+  forallb (fun fl => (length fl =? nc)%nat && forallb (fun cl => (length cl =? 3)%nat) fl) feat &&
+  forallb (fun k =>
+    forallb (fun i =>
+      eq_up_to_sign (map (fun fl => nth i (nth k fl []) 0) feat)
+                    (wcol w (nth i (nth k lead []) O) k)) (seq 0 (length (nth k lead [])))) (seq 0 nc).
+Definition pca_pcs_l_b (lead : list (list nat)) (nsamp nc : nat) (pcs : list (list (list Z))) : bool :=
+  (length pcs =? 3)%nat &&
+  forallb (fun pi => (length pi =? nsamp)%nat && forallb (fun r => (length r =? nc)%nat) pi) pcs &&
+  forallb (fun k =>
+    forallb (fun i =>
+      let v := map (fun r => nth k r 0) (nth i pcs []) in
+      let e := map (fun j => if (j =? nth i (nth k lead []) O)%nat then 1 else 0) (seq 0 nsamp) in
+      eq_up_to_sign v e) (seq 0 (length (nth k lead [])))) (seq 0 nc).
+(* link_route_unstored_channel: requested stored spike, requested channel not in its channel row -> three zeros *)
+Definition unstored_zero_b (stored : list Z) (chrows : list (list Z)) (ids chans : list Z)
+           (feat : list (list (list tok))) : bool :=
+  forallb (fun pf =>
+    match find_pos' stored (fst pf) with
+    | Some q => let row := nth q chrows [] in
+                forallb (fun cf => isin row (fst cf) || list_eqb tok_eqb (snd cf) (repeat tzero 3%nat))
+                        (combine chans (snd pf))
+    | None => true
+    end) (combine ids feat).
+Definition assemble_tok_b (nc : nat) (stored ids : list Z) (feat : list (list (list tok))) : bool :=
+  (length feat =? length ids)%nat &&
+  forallb (fun pf => (length (snd pf) =? nc)%nat && forallb (fun c => (length c =? 3)%nat) (snd pf) &&
+                     (isin stored (fst pf) || list_eqb (list_eqb tok_eqb) (snd pf) (repeat (repeat tzero 3%nat) nc)))
+          (combine ids feat).
 
 Definition check (c0 : case) : list Z :=
   match cin c0 with
@@ -466,6 +516,53 @@ Definition check (c0 : case) : list Z :=
             end
           else [3]
       | _ => [1; 30]
+      end
+  | InPcaS exact judged nsamp w chrows stored ids chans =>
+      let nc := length chans in
+      let n := Z.of_nat nsamp in
+      let exist := intersect1d ids stored in
+      let ncs := match chrows with r :: _ => length r | [] => O end in
+      if negb (nodupb ids && nodupb stored && nodupb chans && forallb (fun x => 0 <=? x) ids &&
+               forallb (fun x => 0 <=? x) stored && forallb (fun x => 0 <=? x) chans &&
+               (0 <? nc)%nat && (0 <? nsamp)%nat && (0 <? length exist)%nat &&
+               (length w =? length stored)%nat && (length chrows =? length stored)%nat &&
+               forallb (is_shape nsamp ncs) w &&
+               forallb (fun r => (length r =? ncs)%nat && forallb (fun x => -1 <=? x) r) chrows) then [3] else
+      (* the waveform stage of the linked model: C03's get_waveforms on the store *)
+      match linked_waveforms 0 stored chrows w n exist chans with
+      | None => [3]
+      | Some W =>
+          match cobs c0 with
+          | ObsLink wav pcs feat =>
+              flag 1 (match z3 wav with Some wv => z3_eqb W wv | None => false end) ++
+              flag 31 (unstored_zero_b stored chrows ids chans feat) ++
+              flag 29 (assemble_tok_b nc stored ids feat) ++
+              (if exact then
+                 match pca_leading_max (claimed (length W)) nsamp nc W with
+                 | None => [3]
+                 | Some lead =>
+                     if negb (fold_right Nat.add O (map (@length nat) lead) =? judged)%nat then [3] else
+                     match z3 pcs, z3 feat with
+                     | Some pz, Some fz =>
+                         (* the linked model, the oracle being the components the eigen-solver returned *)
+                         flag 1 (match linked_get_features Z.add Z.mul 0 pz stored chrows w n ids chans with
+                                 | Some m => z3_eqb m fz | None => false end) ++
+                         flag 27 (pca_pcs_l_b lead nsamp nc pz) ++
+                         match exist_rows stored ids fz with
+                         | Some fe => flag 28 (pca_feat_l_b lead nc W fe)
+                         | None => [28]
+                         end
+                     | _, _ => [1; 28]
+                     end
+                 end
+               else if (length W =? 2)%nat then
+                 match exist_rows stored ids feat with
+                 | Some fe => flag 28 (forallb (t_shape nc 3) fe && feat2_b nsamp nc W fe)
+                 | None => [28]
+                 end
+               else [])
+          | _ => [1; 28; 29; 31]
+          end
       end
   end.
 
